@@ -134,15 +134,24 @@ def regenerate(repo=None):
     repo = repo or common.REPO
     tree, src = T.parse_file(repo, IDENT)
     res, res_line = _module_constant(tree, "RESOLUTION")
+    def rounding(f):
+        """the assignment to `value` whose right-hand side mentions RESOLUTION"""
+        hits = [a for a in T.assigns(f, "value") if any(isinstance(n, ast.Name) and n.id == "RESOLUTION" for n in ast.walk(a.value))]
+        if len(hits) != 1:
+            raise T.TranslationError("expected exactly one assignment `value = ... RESOLUTION ...` in _add_value_to_hash_list")
+        return hits[0]
     spec = T.Spec("round8", IDENT, "Identifier._add_value_to_hash_list",
-                  lambda f: T.assigns(f, "value")[0], [("RESOLUTION", "float"), ("value", "float")], "float")
+                  rounding, [("RESOLUTION", "float"), ("value", "float")], "float")
     cache = {IDENT: (tree, src)}
     fn = T.find_function(tree, "Identifier._add_value_to_hash_list")
-    if len(T.assigns(fn, "value")) != 1:
-        raise T.TranslationError("expected exactly one assignment to `value` in _add_value_to_hash_list")
+    others = [a for a in T.assigns(fn, "value") if a is not rounding(fn)]
+    # the only other assignment the model knows: `value = value.item()` (numpy scalars described as Python values)
+    unwraps = [a for a in others if isinstance(a.value, ast.Call) and T._dotted(a.value.func) == "value.item" and not a.value.args]
+    if len(others) != len(unwraps) or len(unwraps) > 1:
+        raise T.TranslationError("unexpected assignment to `value` in _add_value_to_hash_list")
     info = T.translate_spec(repo, spec, cache)
     # the assignment must sit in a try whose only handler is `except OverflowError: pass`
-    tries = [n for n in ast.walk(fn) if isinstance(n, ast.Try) and any(a is T.assigns(fn, "value")[0] for a in n.body)]
+    tries = [n for n in ast.walk(fn) if isinstance(n, ast.Try) and any(a is rounding(fn) for a in n.body)]
     if len(tries) != 1 or len(tries[0].handlers) != 1 or T._dotted(tries[0].handlers[0].type) != "OverflowError" \
             or not all(isinstance(b, ast.Pass) for b in tries[0].handlers[0].body) or tries[0].finalbody or tries[0].orelse:
         raise T.TranslationError("rounding is not wrapped in `try: ... except OverflowError: pass`")
@@ -196,7 +205,8 @@ def regenerate(repo=None):
         "round8": {"source": info["source"], "line": info["line"]},
         "key_filter": {"source": "startswith(%r) or in %r" % (prefix, tuple(names)), "line": kf_line},
         "join_sep": {"source": repr(sep), "line": sep_line},
-        "facts": {"source": "CompoundPrior.__identifier_fields__=%r ModifiedPrior.__identifier_fields__=%r from_dict restores "
+        "numpy_scalars_unwrapped": bool(unwraps),
+        "facts": {"source": "numpy scalars unwrapped=%r " % bool(unwraps) + "CompoundPrior.__identifier_fields__=%r ModifiedPrior.__identifier_fields__=%r from_dict restores "
                             "item_number=%r LogGaussianPrior.dict=%r Drawer search.json readable=%r" % (compound, modified, restores, has_dict, drawer_ok),
                   "line": 0},
     }
@@ -910,6 +920,36 @@ def reload_labels(spec, how):
     return labels
 
 
+def silent_default(spec):
+    """a ModifiedPrior whose nearest enclosing Model is of the class that has prior configuration: on reload the
+    attribute silently becomes the configured default prior instead of raising (the Coq `reload` says None = raised)"""
+    def go(e, nearest):
+        if e["t"] == "unop" and nearest == "C2":
+            return True
+        if e["t"] == "model":
+            nearest = e["cls"]
+        for _, ch in children(e):
+            if go(ch, nearest):
+                return True
+        return False
+    return go(spec["model"], None)
+
+
+def children(e):
+    t = e["t"]
+    if t == "binop":
+        return [("l", e["l"]), ("r", e["r"])]
+    if t == "unop":
+        return [("a", e["a"])]
+    if t == "tuple":
+        return list(map(tuple, e["members"]))
+    if t in ("model", "inst"):
+        return list(map(tuple, e["attrs"] + e.get("extras", [])))
+    if t == "coll":
+        return list(map(tuple, e["items"]))
+    return []
+
+
 def fit_eligible(spec):
     f = features(spec)
     if f & {"arith", "np_value"}:
@@ -919,7 +959,7 @@ def fit_eligible(spec):
             return False
         if n["t"] == "model" and n.get("extras"):       # extra attributes are handed to the constructor: no instance
             return False
-    return spec["search"]["cls"] in ("LBFGS", "BFGS", "DynestyStatic")
+    return spec["search"]["cls"] in ("LBFGS", "BFGS", "DynestyStatic", "Drawer")
 
 
 def equal_pairs(rng, S, quick):
@@ -931,7 +971,7 @@ def equal_pairs(rng, S, quick):
     out.append(("deepcopy", S, with_build(S, route="deepcopy"), []))
     out.append(("reload", S, with_build(S, route="reload"), reload_labels(S, "reload")))
     if rng.random() < (0.5 if quick else 0.9):
-        out.append(("files", S, with_build(S, route="files"), reload_labels(S, "files")))
+        out.append(("files", S, with_build(S, route="files", export=rng.random() < 0.5), reload_labels(S, "files")))
     b = _copy.deepcopy(S)
     b["search"]["name"] = "renamed"
     b["search"]["path_prefix"] = rng.choice(["other/prefix", "zz"])
@@ -943,6 +983,13 @@ def equal_pairs(rng, S, quick):
     if vs:
         ren = {v: rng.choice(["renamed_%d" % i, "v%d" % i, "galaxy_%d" % i]) for i, v in enumerate(sorted(vs))}
         out.append(("rename", S, with_build(S, rename=ren), []))
+    # the keywords of a Model given in another order (Model.__init__ follows the constructor signature)
+    ms = sites(S, lambda x: x["t"] == "model" and len(x["attrs"]) >= 2)
+    if ms:
+        b = _copy.deepcopy(S)
+        n_ = get_at(b["model"], rng.choice(ms))
+        n_["attrs"] = n_["attrs"][1:] + n_["attrs"][:1]
+        out.append(("kw_order", S, b, []))
     # sub-resolution change of a fixed value or prior parameter
     fl = sites(S, lambda x: x["t"] == "float")
     if fl:
@@ -1020,7 +1067,8 @@ def differ_pairs(rng, S, gen):
         p = rng.choice(fl)
         in_attr = len(p) >= 3 and p[-3] in ("attrs", "items", "extras", "members")
         parent = get_at(S["model"], p[:-3]) if in_attr else None
-        if not (parent is not None and parent["t"] == "inst" and parent["cls"] == "PlainEx" and get_at(S["model"], p[:-1])[0] == "q"):
+        if not (parent is not None and parent["t"] == "inst" and (parent["cls"] in DROPPING or (
+                parent["cls"] == "PlainEx" and get_at(S["model"], p[:-1])[0] == "q"))):
             b = _copy.deepcopy(S)
             set_at(b["model"], p, {"t": "float", "v": hx(bump(unhex(get_at(S["model"], p)["v"]), rng))})
             add("const", b)
@@ -1032,6 +1080,56 @@ def differ_pairs(rng, S, gen):
             b["pool"].append(gen.prior_spec())
             set_at(b["model"], p, {"t": "prior", "ref": len(b["pool"]) - 1})
             add("const_to_prior", b)
+    # values the walk has no branch for (numpy scalars; arguments of KW / Renamed objects)
+    nps = sites(S, lambda x: x["t"] == "np")
+    if nps:
+        p = rng.choice(nps)
+        b = _copy.deepcopy(S)
+        n_ = get_at(b["model"], p)
+        n_["v"] = n_["v"] + (3 if n_["dtype"] == "int64" else 2.5)
+        add("const_dropped", b, [] if FACTS.get("numpy_scalars_unwrapped") else ["const_dropped"])
+    dr = [p for p in sites(S, lambda x: x["t"] == "inst" and x["cls"] in DROPPING)]
+    if dr:
+        p = rng.choice(dr)
+        b = _copy.deepcopy(S)
+        n_ = get_at(b["model"], p)
+        n_["attrs"][0][1] = {"t": "float", "v": hx(bump(unhex(n_["attrs"][0][1]["v"]), rng))}
+        add("const_dropped", b, ["const_dropped"])
+    # a value replaced by the string that spells its token
+    for kind in ("float", "int", "bool"):
+        ss = [p for p in sites(S, lambda x: x["t"] == kind) if len(p) >= 3 and p[-3] == "extras"]
+        if ss and rng.random() < 0.5:
+            p = rng.choice(ss)
+            n_ = get_at(S["model"], p)
+            text = repr(float(ref_round(unhex(n_["v"])))) if kind == "float" else str(n_["v"])
+            b = _copy.deepcopy(S)
+            set_at(b["model"], p, {"t": "str", "v": text})
+            add("const_type", b, ["const_type"])
+    # the band between one and two and a half resolutions: the expected outcome is what rounding to 1e-8 gives
+    if fl:
+        p = rng.choice(fl)
+        in_attr = len(p) >= 3 and p[-3] in ("attrs", "items", "extras", "members")
+        parent = get_at(S["model"], p[:-3]) if in_attr else None
+        hidden = parent is not None and parent["t"] == "inst" and (parent["cls"] in DROPPING or
+                                                                 (parent["cls"] == "PlainEx" and get_at(S["model"], p[:-1])[0] == "q"))
+        if not hidden:
+            k_ = rng.randint(-10 ** 7, 10 ** 7)
+            va = (k_ + rng.choice([0.0, 0.25, 0.45, -0.45, 0.5])) * 1e-8
+            vb = va + rng.choice([0.3, 0.6, 0.9, 1.0, 1.2, 1.5, 2.0, 2.5]) * 1e-8 * rng.choice([1, -1])
+            a, b = _copy.deepcopy(S), _copy.deepcopy(S)
+            set_at(a["model"], p, {"t": "float", "v": hx(va)})
+            set_at(b["model"], p, {"t": "float", "v": hx(vb)})
+            same = repr(float(ref_round(va))) == repr(float(ref_round(vb)))
+            out.append({"kind": "pair", "how": "band_same" if same else "band_differ", "expect": "same" if same else "differ",
+                        "a": a, "b": b, "labels": []})
+    # the items of a collection given in another order: another composition (iteration order of the instance)
+    cs2 = sites(S, lambda x: x["t"] == "coll" and x["form"] in ("dict", "kwargs") and len(x["items"]) >= 2)
+    if cs2:
+        p = rng.choice(cs2)
+        b = _copy.deepcopy(S)
+        n_ = get_at(b["model"], p) if p else b["model"]
+        n_["items"] = n_["items"][1:] + n_["items"][:1]
+        add("item_order", b)
     for kind in ("int", "bool", "str"):
         ss = sites(S, lambda x: x["t"] == kind)
         if ss:
@@ -1209,10 +1307,23 @@ def gen_value(rng, depth=0):
         return ["obj", "Fielded", kw, []]
     if r < 0.90:
         return ["obj", "Broken", [], []]
-    if r < 0.96:
+    if r < 0.93:
         g = Gen(rng, clean=False)
         return ["prior", g.prior_spec()]
-    return ["gridsearch", rng.randint(1, 9), rng.randint(1, 4)]
+    if r < 0.95:
+        return ["gridsearch", rng.randint(1, 9), rng.randint(1, 4)]
+    k = rng.random()
+    if k < 0.35:      # values no branch applies to
+        return rng.choice([["np", "int64", rng.randint(-9, 99)], ["np", "float32", rng.randint(-20, 20) / 4.0],
+                           ["np", "bool_", rng.random() < 0.5], ["np", "complex", rng.randint(1, 5)]])
+    if k < 0.45:
+        return ["np0d", hx(rng.randint(-8, 8) / 4.0)]                       # iteration raises TypeError
+    if k < 0.55:
+        return ["nparr", [hx(rng.randint(-80, 80) / 8.0) for _ in range(rng.randint(0, 3))]]   # elements are numpy.float64 = float
+    if k < 0.8:       # iteration order of a set of strings follows the hash seed of the process
+        return [rng.choice(["set", "fset"]), rng.sample(["a", "b", "c", "dd", "e1", "mass", "x.y", "7"], rng.randint(0, 5))]
+    return ["dictsub", [[kk, gen_value(rng, depth + 1)] for kk in rng.sample(["a", "b", "note", "_z"], rng.randint(0, 3))],
+            hx(rng.randint(-8, 8) / 4.0)]
 
 
 def value_has(v, tag):
@@ -1224,6 +1335,21 @@ def value_has(v, tag):
         return any(value_has(x, tag) for _, x in v[1])
     if v[0] == "obj":
         return any(value_has(x, tag) for _, x in v[2] + v[3])
+    if v[0] == "dictsub":
+        return any(value_has(x, tag) for _, x in v[1])
+    return False
+
+
+def big_set(v):
+    """contains a set / frozenset of at least two strings (its iteration order is hash-seed dependent)"""
+    if v[0] in ("set", "fset"):
+        return len(set(v[1])) >= 2
+    if v[0] in ("seq", "tup"):
+        return any(big_set(x) for x in v[1])
+    if v[0] in ("dict", "idict", "dictsub"):
+        return any(big_set(x) for _, x in v[1])
+    if v[0] == "obj":
+        return any(big_set(x) for _, x in v[2] + v[3])
     return False
 
 
@@ -1237,8 +1363,8 @@ def gen_cases(ctx):
     cases = []
     fits = 0
     for k in range(nbase):
-        # 3 of 8 base specifications are free of every feature with a recorded finding, 4 use exactly one, 1 any
-        allow = [[], ["arith"], [], ["item_number"], [], ["fixed_model"], ["log_gaussian", "drawer"][(k // 8) % 2:][:1], list(Gen.ALL)][k % 8]
+        # 5 of 8 base specifications are free of every feature with a recorded finding, 2 use exactly one, 1 both
+        allow = [[], ["modified"], [], [], ["fixed_model"], [], [], list(Gen.KNOWN)][k % 8]
         gen = Gen(rng, allow=allow, max_depth=2 if k % 3 else 3)
         S = gen.fit()
         cases.append({"kind": "fit", "spec": S})
@@ -1248,6 +1374,14 @@ def gen_cases(ctx):
         # a sample of the perturbed specifications also goes through the full correspondence
         for c in rng.sample(dp, min(len(dp), 2 if quick else 3)):
             cases.append({"kind": "fit", "spec": c["b"]})
+        # one search object re-used for a second fit: the cached identifier must follow (model / tag / both)
+        if dp and k % 2 == 0:
+            other = rng.choice([c for c in dp if c["expect"] == "differ" and not c["labels"] and c["a"] is S
+                                and not c["how"].startswith("search")] or [None])
+            if other is not None:
+                b = with_build(S, route="refit")
+                b["then"] = {"model": other["b"]["model"], "pool": other["b"]["pool"], "tag": other["b"].get("tag")}
+                cases.append({"kind": "pair", "how": "refit", "expect": "same", "a": S, "b": b, "labels": []})
         if fit_eligible(S) and fits < (6 if quick else 60):
             fits += 1
             a = _copy.deepcopy(S)
@@ -1260,8 +1394,9 @@ def gen_cases(ctx):
             cases.append({"kind": "pair", "how": "fit", "expect": "same", "a": a, "b": b, "labels": reload_labels(S, "fit")})
     for _ in range(3 if quick else 20):
         cases += special_pairs(rng, Gen(rng, clean=True))
-    for _ in range(120 if quick else 2500):
-        cases.append({"kind": "walk", "value": gen_value(rng)})
+    for _ in range(140 if quick else 2500):
+        v = gen_value(rng)
+        cases.append({"kind": "walk", "value": v, "labels": ["set_order"] if big_set(v) else []})
     specials = [0.0, -0.0, 5e-9, -5e-9, 1.5e-8, 2.5e-8, 3.5e-8, 0.1 + 0.2, 1e-8, 0.30000000000000004, 1e10 + 0.5, 2.0 ** 53 * 1e-8,
                 4.6e10, 9.3e10, 1e11, 1e15, 1e22, 1e300, -1e300, 1.7976931348623157e308, 5e-324, 1e-300,
                 float("inf"), float("-inf"), float("nan"), 123456789.123456789, -0.999999995, 0.999999995]
@@ -1290,67 +1425,92 @@ def is_nontrivial(c):
     if k == "pair":
         return nontrivial(c["a"]) or c["how"].startswith(("search", "tag", "nonid"))
     if k == "walk":
-        return c["value"][0] in ("seq", "tup", "dict", "idict", "obj", "gridsearch", "prior")
+        return c["value"][0] in ("seq", "tup", "dict", "idict", "obj", "gridsearch", "prior", "dictsub", "set", "fset", "nparr")
     if k == "round":
         return True
     return False
 
 
 def oracle(c, r):
-    """Direct statement of C07 on the implementation's outputs; None or a message."""
+    """Direct statement of C07 on the implementation's outputs.  Returns a list of (message, labelled): `labelled`
+    failures may be matched against the case's known-finding labels, the others (free-parameter count, tag,
+    folder name, refit) never are.  (oracle_msg gives the first message or None.)"""
     k = c["kind"]
     if k == "fit":
         if "raised" in r:
-            return "identifier of a valid fit raised %s" % r["raised"]
+            return [("identifier of a valid fit raised %s" % r["raised"], True)]
         if not r.get("md5_ok"):
-            return "str(identifier) is not the md5 of the joined description"
+            return [("str(identifier) is not the md5 of the joined description", False)]
         if r.get("paths_identifier") != r["identifier"]:
-            return "search.paths.identifier differs from Identifier([search, model, tag])"
-        return None
+            return [("search.paths.identifier differs from Identifier([search, model, tag])", False)]
+        return []
+    if k == "pair" and c["how"] == "refit":
+        st = r["b"].get("steps")
+        if not st:
+            return [("refit raised %s" % r["b"].get("raised"), False)]
+        out = []
+        for i, x in enumerate(st):
+            if x["paths_identifier"] != x["fresh"]:
+                out.append(("after re-using a search for another fit (step %d) paths.identifier is not the identifier of "
+                            "the search, model and tag it now holds" % i, False))
+            if x["folder"] != x["paths_identifier"]:
+                out.append(("after re-using a search (step %d) the output folder is not named by the identifier" % i, False))
+        if st[0]["paths_identifier"] != st[2]["paths_identifier"]:
+            out.append(("the same fit set again on the same search has another identifier", False))
+        if st[0]["paths_identifier"] == st[1]["paths_identifier"]:
+            out.append(("two different fits run one after the other on one search share an identifier", False))
+        return out[:1]
     if k == "pair":
         a, b = r["a"], r["b"]
         if "raised" in a:
-            return "identifier of the base fit raised %s" % a["raised"]
+            return [("identifier of the base fit raised %s" % a["raised"], True)]
         # the observable is search.paths.identifier (the folder name) wherever a paths object exists
         ida = a.get("paths_identifier") or a["identifier"]
         idb = b.get("identifier") if b.get("route") in ("reload", "files", "fit") else (b.get("paths_identifier") or b.get("identifier"))
         if b.get("skipped"):
-            return None
+            return []
+        out = []
         if c["expect"] == "same":
-            if "raised" in b:
-                return "equal construction (%s): %s while %s the fit's own files" % (c["how"], b["raised"], "reading" if b.get("stage") == "read" else "writing/reading")
-            if idb != ida:
-                return "equal construction (%s) has a different identifier" % c["how"]
-            if b.get("route") in ("files", "fit"):
-                if b.get("folder") != b.get("paths_identifier") or not b.get("folder_exists"):
-                    return "output folder is not named by the identifier"
-                if b.get("paths_identifier") != ida:
-                    return "paths.identifier of the written fit differs from the identifier"
             if b.get("route") == "reload":
                 pc = b.get("prior_count")
-                if pc and pc[0] != pc[1]:
-                    return "reload changed the number of free parameters (%s -> %s)" % tuple(pc)
-                if b.get("reloaded_tag") != c["a"].get("tag"):
-                    return "reload changed the unique tag"
-            return None
+                if pc and pc[0] is not None and pc[1] is not None and pc[0] != pc[1]:
+                    out.append(("reload changed the number of free parameters (%s -> %s)" % tuple(pc), False))
+                if "reloaded_tag" in b and b.get("reloaded_tag") != c["a"].get("tag"):
+                    out.append(("reload changed the unique tag", False))
+            if b.get("route") in ("files", "fit") and "paths_identifier" in b:
+                if b.get("folder") != b.get("paths_identifier") or not b.get("folder_exists"):
+                    out.append(("output folder is not named by the identifier", False))
+                if b.get("paths_identifier") != ida:
+                    out.append(("paths.identifier of the written fit differs from the identifier", False))
+            if "raised" in b:
+                out.append(("equal construction (%s): %s at stage %s of going through the fit's own files"
+                            % (c["how"], b["raised"], b.get("stage")), True))
+            elif idb != ida:
+                out.append(("equal construction (%s) has a different identifier" % c["how"], True))
+            return out
         if "raised" in b:
-            return "identifier of the perturbed fit raised %s" % b["raised"]
+            return [("identifier of the perturbed fit raised %s" % b["raised"], True)]
         if ida == idb:
-            return "two different fits (%s) have the same identifier" % c["how"]
-        return None
+            return [("two different fits (%s) have the same identifier" % c["how"], True)]
+        return []
     if k == "walk":
         if "raised" in r:
-            return None
-        return None if r.get("md5_ok") else "str(identifier) is not the md5 of the joined description"
+            return []
+        return [] if r.get("md5_ok") else [("str(identifier) is not the md5 of the joined description", False)]
     if k == "round":
         v = unhex(c["v"])
         if v != v:
-            return None if r.get("raised") == "ValueError" else "nan did not raise ValueError"
+            return [] if r.get("raised") == "ValueError" else [("nan did not raise ValueError", False)]
         if "raised" in r:
-            return "float %r raised %s" % (v, r["raised"])
+            return [("float %r raised %s" % (v, r["raised"]), False)]
         exp = repr(float(ref_round(v)))
-        return None if r["hash_list"] == [exp] else "float %r is described as %s, expected %s (rounding to 1e-8)" % (v, r["hash_list"], exp)
-    return "unknown kind"
+        return [] if r["hash_list"] == [exp] else [("float %r is described as %s, expected %s (rounding to 1e-8)" % (v, r["hash_list"], exp), False)]
+    return [("unknown kind", False)]
+
+
+def oracle_msg(c, r):
+    o = oracle(c, r)
+    return o[0][0] if o else None
 
 
 def coq_terms(c, r):
@@ -1371,10 +1531,14 @@ def coq_terms(c, r):
         if c["b"].get("build", {}).get("route") == "reload":
             S = c["b"]
             mr = "model_raised" in b
-            out.append("CReload %s %s %s" % (node_term(S["model"], S["pool"]), cbool(mr), "ONone" if mr else obj_term(b["abs_model"])))
+            # (not compared: the silent-default case above; plain objects whose constructor arguments cannot be read
+            #  back from their attributes -- KW / Renamed -- are rebuilt with their defaults, outside Model.reload's assumption)
+            if not silent_default(S) and "dropping_instance" not in features(S):
+                out.append("CReload %s %s %s" % (node_term(S["model"], S["pool"]), cbool(mr), "ONone" if mr else obj_term(b["abs_model"])))
             sr = "search_raised" in b
             out.append("CReload %s %s %s" % (search_term(S["search"]), cbool(sr), "ONone" if sr else obj_term(b["abs_search"])))
-        if c["b"].get("build", {}).get("route") in ("files", "fit") and "raised" not in b and b.get("abs_model"):
+        if c["b"].get("build", {}).get("route") in ("files", "fit") and "raised" not in b and b.get("abs_model") \
+                and "dropping_instance" not in features(c["b"]):
             S = c["b"]
             out.append("CReload %s false %s" % (node_term(S["model"], S["pool"]), obj_term(b["abs_model"])))
     if k == "walk":
@@ -1417,6 +1581,7 @@ def run(ctx):
     ]
     try:
         infos = regenerate()
+        FACTS["numpy_scalars_unwrapped"] = infos.pop("numpy_scalars_unwrapped")
         ctx.translated = infos
         ctx.notes["code_facts"] = infos["facts"]["source"]
         ctx.obligation("translator:Gen.v", "translator", True, "%d items" % len(infos))
@@ -1439,7 +1604,7 @@ def run(ctx):
     # implementation, in parallel chunks
     nchunk = max(1, min(common.NCPU, len(cases) // 40 or 1))
     chunks = [cases[i::nchunk] for i in range(nchunk)]
-    outs = common.run_impl_parallel("c07_impl", [{"cases": ch} for ch in chunks], timeout=900)
+    outs = common.run_impl_parallel("c07_impl", [{"cases": ch, "facts": FACTS} for ch in chunks], timeout=900)
     results = [None] * len(cases)
     for ci, o in enumerate(outs):
         if "__error__" in o:
@@ -1448,13 +1613,23 @@ def run(ctx):
         for j, r in enumerate(o["results"]):
             results[ci + j * nchunk] = r
     # a second process with another hash seed and other ids: identifiers must be the same in every process
+    # (fits and generic values are rebuilt there; files written by the first process are read back there)
     fit_idx = [i for i, c in enumerate(cases) if c["kind"] == "fit"][: (60 if ctx.tier != "thorough" else 400)]
-    second = common.run_impl("c07_impl", {"cases": [cases[i] for i in reversed(fit_idx)]}, timeout=1500,
+    fit_idx += [i for i, c in enumerate(cases) if c["kind"] == "walk"][: (200 if ctx.tier != "thorough" else 1500)]
+    second_cases = [cases[i] for i in fit_idx]
+    for i, (c, r) in enumerate(zip(cases, results)):
+        exp = (r.get("ok") or {}).get("b", {}).get("export") if c["kind"] == "pair" else None
+        if exp:
+            fit_idx.append(i)
+            second_cases.append({"kind": "readback", "export": exp})
+    order2 = list(range(len(second_cases)))
+    ctx.rng.shuffle(order2)
+    second = common.run_impl("c07_impl", {"cases": [second_cases[j] for j in order2], "facts": FACTS}, timeout=900,
                              extra_env={"PYTHONHASHSEED": str(1 + ctx.rng.randrange(10 ** 6))})
     if "__error__" in second:
         ctx.obligation("impl-driver-second-process", "harness", False, second["__error__"][-800:])
         return
-    second_by_idx = dict(zip(reversed(fit_idx), second["results"]))
+    second_by_idx = {fit_idx[j]: second["results"][pos] for pos, j in enumerate(order2)}
 
     coq_cases, coq_owner = [], []
     for i, (c, r) in enumerate(zip(cases, results)):
@@ -1473,16 +1648,20 @@ def run(ctx):
         ok = r["ok"]
         if c["kind"] == "pair" and ok["b"].get("skipped"):
             ctx.hist("skipped", ok["b"]["skipped"])
-        msg = oracle(c, ok)
-        if msg is None and i in second_by_idx:
+        msgs = oracle(c, ok)
+        if not msgs and i in second_by_idx:
             o2 = second_by_idx[i].get("ok", {})
-            if o2.get("identifier") != ok.get("identifier"):
-                msg = "identifier differs between two processes (%s vs %s)" % (ok.get("identifier"), o2.get("identifier"))
-        if msg:
+            if c["kind"] in ("fit", "walk") and ("raised" in ok) == ("raised" in o2) and o2.get("identifier") != ok.get("identifier"):
+                msgs = [("identifier differs between two processes with different hash seeds (%s vs %s)"
+                         % (ok.get("identifier"), o2.get("identifier")), True)]
+            if c["kind"] == "pair" and o2.get("identifier", o2.get("raised")) != ok["b"].get("identifier", ok["b"].get("raised")):
+                msgs = [("files written by one process are read to another identifier by a second process (%s vs %s)"
+                         % (ok["b"].get("identifier"), o2.get("identifier", o2.get("raised"))), False)]
+        for msg, labelled in msgs:
             ctx.oracle["failures"] += 1
             small = {k: (v if k not in ("abs_model", "abs_search", "abs") else "...") for k, v in ok.items()} if "a" not in ok else \
-                {s: {k: v for k, v in ok[s].items() if not k.startswith("abs")} for s in ("a", "b")}
-            ctx.failure("oracle", msg, c, classes=labels, impl=small)
+                {s: {k: v for k, v in ok[s].items() if not k.startswith("abs") and k != "export"} for s in ("a", "b")}
+            ctx.failure("oracle", msg, c, classes=labels if labelled else [], impl=small)
         for t in coq_terms(c, ok):
             coq_cases.append(t)
             coq_owner.append(i)
@@ -1498,7 +1677,7 @@ def run(ctx):
                 c, ok = cases[i], results[i].get("ok")
                 ctx.failure("correspondence", "model and implementation disagree on a %s case: %s" % (c["kind"], coq_cases[b][:60]),
                             c, classes=[], impl=None, broken={"kind": "correspondence", "name": "C07.check_case"},
-                            found_input=oracle(c, ok) is not None)
+                            found_input=oracle_msg(c, ok) is not None)
     else:
         ctx.obligation("correspondence:cases", "correspondence", False, "Model.vo not built")
 
